@@ -973,4 +973,56 @@ def search_C13_history():
             failures.append({'property': 'C13', 'fn': 'mosromgr.mostypes.%s.merge' % kind, 'kind': kind, 'args': a, 'later': [[k, x] for k, x in later],
                              'ro_spec': ro_spec, 'history': True, 'what': '%s: %s' % (kind, w), 'input_sha': _sha(json.dumps([kind, a])),
                              'api': 'ro1 += m; later merges into ro1; ro2 += m (same object) vs ro3 += fresh parse'})
+    for ctor in ('from_string', 'from_file'):
+        n += 1
+        try:
+            viol = check_c13_readers(ctor)
+        except Exception as e:
+            viol = ['harness: %s %s' % (type(e).__name__, e)]
+        for w in viol[:1]:
+            failures.append({'property': 'C13', 'fn': 'mosromgr.moscollection.MosReader.%s' % ctor, 'readers': ctor, 'history': True,
+                             'what': 'readers built with %s: %s' % (ctor, w), 'input_sha': _sha('readers ' + ctor),
+                             'api': 'readers = [MosReader.%s(..)]; a = MosCollection(readers); b = MosCollection(readers); a.merge(); b' % ctor})
     return n, failures
+
+
+def check_c13_readers(ctor):
+    """two collections built from ONE list of readers never share mutable content: merging the first leaves the second
+    the bare roCreate, and merging the second then gives the same document"""
+    import tempfile, os as _os, shutil
+    from mosromgr.moscollection import MosCollection, MosReader
+    from scenarios import ro_xml
+    docs = [ro_xml(['A', 'B', 'C'], mid=1, items={'A': ['1', '2']}),
+            msg('StoryAppend', mid=2, new=['N1'])[0], msg('ItemDelete', mid=3, story='A', ids=['1'])[0],
+            msg('StoryDelete', mid=4, ids=['B'])[0]]
+    d = None
+    try:
+        if ctor == 'from_file':
+            d = tempfile.mkdtemp(prefix='c13r.', dir='/var/tmp')
+            paths = []
+            for k, x in enumerate(docs):
+                pth = _os.path.join(d, 'm%d.mos.xml' % k)
+                open(pth, 'w').write(x)
+                paths.append(pth)
+            readers = [MosReader.from_file(q) for q in paths]
+        else:
+            readers = [MosReader.from_string(x) for x in docs]
+        a = MosCollection(list(readers), allow_incomplete=True)
+        b = MosCollection(list(readers), allow_incomplete=True)
+        bare = str(b)
+        viol = []
+        with warnings.catch_warnings():
+            warnings.simplefilter('ignore')
+            a.merge()
+            if str(b) != bare:
+                viol.append('merging one collection changed another collection built from the same readers')
+            ids_a = {id(e) for e in a.ro.xml.iter()}
+            if a.ro is b.ro or any(id(e) in ids_a for e in b.ro.xml.iter()):
+                viol.append('two collections share running-order content through their readers')
+            b.merge()
+            if str(b) != str(a):
+                viol.append('the second collection merged to a different document than the first')
+        return viol
+    finally:
+        if d:
+            shutil.rmtree(d, ignore_errors=True)
